@@ -103,14 +103,14 @@ def tup(x):
 
 GROUPS = {
     "newick": ("into_ns", "ps", "uu", "weights", "sr-force", "sr-default", "opp-default"),
-    "nexus": ("into_ns", "ps", "uu", "translate", "weights", "sr-force", "sr-default", "opp-default"),
+    "nexus": ("into_ns", "ps", "uu", "translate", "translate-dict", "weights", "sr-force", "sr-default", "opp-default"),
     "nexml": ("into_ns",),
 }
 
 STRUCT_OPTS = {
     "newick": [(), ("into_ns",), ("weights",), ("sr-force",), ("sr-default",), ("opp-default",), ("ps", "uu")],
     "nexus": [(), ("into_ns",), ("translate",), ("into_ns", "translate"), ("weights",), ("sr-force",),
-              ("sr-default", "translate"), ("opp-default",), ("ps", "translate", "uu")],
+              ("sr-default", "translate"), ("opp-default",), ("ps", "translate", "uu"), ("translate-dict",)],
     "nexml": [(), ("into_ns",)],
 }
 UNIF_OPTS = {"newick": [(), ("sr-force",)], "nexus": [(), ("translate",)], "nexml": [()]}
@@ -164,7 +164,11 @@ def derive(case):
         if "ps" not in opts and any((" " in l) for l in all_labels(case)):
             return None
     if "translate" in opts:
+        if "translate-dict" in opts:
+            return None
         wkw["translate_tree_taxa"] = True
+    if "translate-dict" in opts:
+        wkw["translate_tree_taxa"] = "dict"     # replaced by {Taxon: "T<k>"} over the built namespace in evaluate()
     if "weights" in opts:
         wkw["store_tree_weights"] = True
         rkw["store_tree_weights"] = True
@@ -258,7 +262,10 @@ def evaluate(case, want_text=False):
             if nd[0] is not None:
                 used.add(nd[0])
     api = case.get("api", "tree")
-    info = {"wkw": wkw, "rkw": rkw}
+    info = {"wkw": dict(wkw), "rkw": rkw}
+    if wkw.get("translate_tree_taxa") == "dict":
+        wkw["translate_tree_taxa"] = dict((t, "T%d" % (k + 1)) for k, t in enumerate(ns._taxa))
+        info["wkw"]["translate_tree_taxa"] = "{taxon k: 'T<k>'}"
     try:
         if api == "tree":
             text = trees[0].as_string(schema=schema, **wkw)
@@ -415,6 +422,10 @@ def probe_label(schema, opts, label, site, pos):
 
 
 def signature(case, kind):
+    """Call-site level key: schema | (label layer) | kind of disagreement | trigger.  For the
+    label layer the trigger is the single special character that fails on its own (padded
+    as 'x<c>y', preferably in the same way and without any option), else the character class
+    of the label; option groups are named only when the failure needs them."""
     schema = case["schema"]
     opts = minimal_opts(case, kind) if case["opts"] else []
     opt_tag = ("|opt:" + "+".join(sorted(opts))) if opts else ""
@@ -422,33 +433,30 @@ def signature(case, kind):
         label, site, pos = case["label"], case["site"], case.get("pos", 0)
         base = probe_label(schema, opts, "xy", site, pos)
         if not (base is not None and kind in base):
-            culprits = []
-            for c in sorted(specials_of(label)):
-                pl = "x" + c + "y"
-                ks = probe_label(schema, [], pl, site, pos)
-                if ks is not None and kind in ks:
-                    # this character alone fails the same way without any option: same defect
-                    culprits.append(c)
-                    opt_tag = ""
-            if not culprits:
-                for c in sorted(specials_of(label)):
-                    ks = probe_label(schema, opts, "x" + c + "y", site, pos)
-                    if ks is not None and kind in ks:
-                        culprits.append(c)
-            if culprits:
-                feat = "char:" + char_name(culprits[0])
+            sp = sorted(specials_of(label))
+            culprit = None
+            for o, same_kind in (([], True), (opts, True), ([], False), (opts, False)):
+                for c in sp:
+                    ks = probe_label(schema, o, "x" + c + "y", site, pos)
+                    if ks and (kind in ks or not same_kind):
+                        culprit = c
+                        break
+                if culprit is not None:
+                    if not o:
+                        opt_tag = ""     # the character alone fails without any option: same defect
+                    break
+            if culprit is not None:
+                feat = "char:" + char_name(culprit)
+            elif len(sp) == 1 and label == sp[0]:
+                feat = "whole-label:" + char_name(sp[0])
+            elif all((ord(c) > 126 or not c.isalnum()) for c in label):
+                feat = "bare-chars:" + "".join(sorted(set(char_name(c) for c in sp)))
             else:
-                sp = specials_of(label)
-                if len(sp) == 1 and label == sp[0]:
-                    feat = "whole-label:" + char_name(sp[0])
-                elif all((ord(c) > 126 or not c.isalnum()) for c in label):
-                    feat = "bare-chars:" + "".join(sorted(set(char_name(c) for c in sp)))
-                else:
-                    feat = "chars:" + "".join(sorted(set(char_name(c) for c in sp)))
+                feat = "chars:" + "".join(sorted(set(char_name(c) for c in sp)))
             site_tag = ""
             if site == "internal":
                 ks = probe_label(schema, opts, label, "taxon", 0) if admissible(label) else None
-                if not (ks is not None and any(_kind_class(k) == _kind_class(kind) for k in ks)):
+                if ks is not None and not ks:
                     site_tag = "|internal-label-only"
             return "%s|label|%s|%s%s%s" % (schema, _kind_class(kind), feat, site_tag, opt_tag)
     tag = "|empty-list" if (not case["trees"] and kind.split(":")[0] in ("read-raises", "write-raises", "read-hangs")) else ""
@@ -467,10 +475,15 @@ def check(case, ctx, sample=False):
     if info.get("weights_changed"):
         ctx.count("weights_changed", info["weights_changed"])
     if sample and "text" in info:
-        ctx.sample({"schema": case["schema"], "options": {"writer": info["wkw"], "reader": info["rkw"],
-                                                          "into_source_namespace": "into_ns" in case["opts"]},
-                    "written": info["text"] if len(info["text"]) < 700 else info["text"][:700] + "...",
-                    "verdict": "equal" if not probs else [k for k, _ in probs]}, 3)
+        text = info["text"]
+        if case["schema"] == "nexml" and "<otus" in text:
+            text = "... " + text[text.index("<otus"):]
+        ctx.sample({"schema": case["schema"], "layer": case.get("layer"),
+                    "source": [[td["rooted"], ref.to_newick(tup(td["sn"]), True)] for td in case["trees"]],
+                    "options": {"writer": info["wkw"], "reader": info["rkw"],
+                                "into_source_namespace": "into_ns" in case["opts"]},
+                    "written": text if len(text) < 900 else text[:900] + "...",
+                    "verdict": "equal" if not probs else [k for k, _ in probs]}, 4)
     for kind, msg in probs:
         sig = signature(case, kind)
         ctx.violation(sig, "%s %s (writer %r, reader %r%s): %s" % (
@@ -566,7 +579,8 @@ def run_struct(chunk, ctx):
                     for opts in optsets[schema]:
                         case = struct_case(schema, opts, d, rooted, lens, imode, widx=ci + di)
                         ctx.case(("s", d, rooted, lens, imode, schema, opts), nontrivial=n >= 3)
-                        check(case, ctx, sample=(di == 0 and ci == 13 and not opts and si == chunk["lo"]))
+                        check(case, ctx, sample=(n >= 3 and di == 0 and si == chunk["lo"] and rooted is True and imode == "labels"
+                                                 and lens in ("sci", "mixed") and opts in ((), ("translate",))))
             if chunk["which"] == "orders" and n <= b["ns_configs_up_to_leaves"]:
                 for cfg in b["ns_configs"]:
                     if cfg == "exact":
@@ -702,7 +716,7 @@ def chunks(tier):
     nmax = max([b["struct_max_leaves_all_orders"]] + b["struct_base_and_reversed_leaves"])
     for n in range(1, nmax + 1):
         ns = len(U.shapes(n))
-        step = 30 if n <= 3 else (1 if n == 4 else (2 if n == 5 else 50))
+        step = 30 if n <= 3 else (1 if n <= 5 else 50)
         for lo in range(0, ns, step):
             out.append({"kind": "struct", "which": "orders", "n": n, "lo": lo, "hi": min(ns, lo + step), "tier": tier})
     for n in range(1, b["unifurcation_max_leaves"] + 1):
